@@ -111,6 +111,13 @@ func genToolGrammar(r *rng, lr bool) (toolInput, *gen.Grammar) {
 		cfg.MaxDepth = 1
 		g = gen.Generate(r2{r}, cfg)
 	}
+	if lr && len(g.Rules) > 1 && r.chance(1, 4) {
+		// the recursive rule as a whole under a recovery expression: diagnostics and
+		// analyses that walk to the leftmost reference have to walk through it
+		rl := g.Rules[1]
+		rl.Expr = &gen.Expr{Kind: gen.Recover, Subs: []*gen.Expr{rl.Expr, {Kind: gen.Lit, Text: "r"}}, Labels: []string{"E7"}}
+		g.Finish()
+	}
 	po := gen.PrintOptions{Semi: r.chance(1, 6), JoinLines: r.chance(1, 6) || (lr && r.chance(1, 3))}
 	if r.chance(1, 3) {
 		// code blocks in the spellings people write: stubs, blank lines, braces
@@ -209,7 +216,9 @@ func mutateGrammar(r *rng, src []byte) []byte {
 		case 6: // truncate
 			s = s[:r.intn(len(s)+1)]
 		case 7: // append a throw/recover rule and reference shapes the optimizer sees
-			s += r.pick([]string{"\nXx <- 'x' %{e} //{e} 'y'\n", "\nXx <- Yy 'x'\n", "\nXx <- Xx 'x' / 'y'\n", "\nXx <- &Xx 'x'\n", "\nXx <- ('a' / 'b' / [c-d] / 'e'i)* !.\n", "\nXx <- l:'a' l:'b' { return nil, nil }\n", "\nXx <- l:&'a' m:!'b' n:&{ return true, nil } 'c' { return nil, nil }\n", "\nXx <- 'a' / \n", "\nXx <- !Xx 'a' / &Xx 'b'\n", "\nparser <- 'p' current\ncurrent <- 'c' grammar?\ngrammar <- 'g'\n", "\nXx <- \"" + strings.Repeat("long literal ", 400) + "\"\n", "\nXx <- ()\n", "\nXx <- ( )* \n", "\nXx <- 'a'** 'b'?? 'c'+*\n", "\nXx \"\" <- 'a'\n", "\nXx <- [^]* [ ]i . \n"})
+			s += r.pick([]string{"\nXx <- 'x' %{e} //{e} 'y'\n", "\nXx <- Yy 'x'\n", "\nXx <- Xx 'x' / 'y'\n", "\nXx <- &Xx 'x'\n", "\nXx <- ('a' / 'b' / [c-d] / 'e'i)* !.\n", "\nXx <- l:'a' l:'b' { return nil, nil }\n", "\nXx <- l:&'a' m:!'b' n:&{ return true, nil } 'c' { return nil, nil }\n", "\nXx <- 'a' / \n", "\nXx <- !Xx 'a' / &Xx 'b'\n", "\nparser <- 'p' current\ncurrent <- 'c' grammar?\ngrammar <- 'g'\n", "\nXx <- \"" + strings.Repeat("long literal ", 400) + "\"\n", "\nXx <- ()\n", "\nXx <- ( )* \n", "\nXx <- 'a'** 'b'?? 'c'+*\n", "\nXx \"\" <- 'a'\n", "\nXx <- [^]* [ ]i . \n",
+				// left recursion whose recursive reference sits under a recovery expression or a label
+				"\nXx <- Xx 'x' //{e} 'y' / 'z'\n", "\nXx <- ( Xx 'x' / 'y' ) //{e} 'r'\n", "\nXx <- v:Xx 'x' / 'y'\n", "\nXx <- ( ( Xx ) )? 'x'\n", "\nXx <- &'a' Xx 'x' / 'y'\n"})
 		case 8: // replace a literal quote style
 			s = strings.Replace(s, "\"", "`", 1)
 		case 9, 10: // replace a terminal by a lexically tricky one
@@ -248,6 +257,16 @@ func mutateGrammar(r *rng, src []byte) []byte {
 }
 
 func randomBytes(r *rng) []byte {
+	if r.chance(1, 3) {
+		// very short inputs, byte order marks and their proper prefixes, lone
+		// continuation and lead bytes: whatever looks at "the first few bytes"
+		heads := []string{"", "\xef", "\xef\xbb", "\xef\xbb\xbf", "\xef\xbb\xbfA <- 'a'\n", "\xfe\xff", "\xff\xfe", "\xfe", "\xff", "\x00", "\xc3", "\xe2\x82", "\xf0\x9f\x98", "{", "}", "A", "A<", "A<-", "A <- ", "\n", "\r\n", "/", "//", "/*", "'", "\"", "[", "\\", "#", "%"}
+		h := heads[r.intn(len(heads))]
+		if r.chance(1, 4) {
+			h += string([]byte{byte(r.intn(256))})
+		}
+		return []byte(h)
+	}
 	n := r.intn(200)
 	b := make([]byte, n)
 	al := "AaBb <-=/*+?&!(){}[]'\"\\\n;:.%#^i0\x00\xff\xc3"
